@@ -1,12 +1,13 @@
 //! C20 — Vector and f64 scalar primitives implement their componentwise definitions.
 use crate::engine::{self, Ctx, Failure, Spec, Tape, Tier};
 use crate::fail;
+use crate::gen;
 use momtrop::float::MomTropFloat;
 use momtrop::vector::Vector;
 use serde::{Deserialize, Serialize};
 use std::time::Instant;
 
-pub const RULE: &str = "cases = dimension D=1..8, two vectors and a scalar whose components are drawn from all finite f64 (uniform bit patterns, +-0, subnormals, 1e+-300, small integers, ordinary reals), an isize (small, +-2^53 neighbourhood, extremes) and a scalar argument for the f64 trait functions. oracle: plain-array IEEE reference compared by bit pattern (NaN == NaN): +, -, *T, *&T, +=, dot (left fold from index 0 starting at +0), squared == dot(v,v), dot symmetry, from_array/from_vec/from_slice/get_elements/Index/IndexMut/new/new_from_num/zero/len; f64 as MomTropFloat: inv == 1/x, from_isize exact up to 2^53 (checked through an i128 round trip) and correctly rounded beyond, PI/zero/one/abs/sqrt/ln/exp/sin/cos/powf/to_f64/from_f64 against std. non-trivial = D not in {2,3} or a component that is non-integer or of magnitude outside [1e-3,1e3]; distinct = distinct case encodings";
+pub const RULE: &str = "cases = dimension D=1..8, two vectors and a scalar whose components are drawn from all finite f64 (uniform bit patterns, +-0, subnormals, 1e+-300, small integers, ordinary reals), an isize (small, +-2^53 neighbourhood, extremes) and a scalar argument for the f64 trait functions (general classes, every magnitude on a log scale, |x| in [690,760] where exp leaves the normal range, +-32 ulps around 0, 1, pi/2, pi, 2pi, 1e22 and the under/overflow thresholds of exp). oracle: plain-array IEEE reference compared by bit pattern (NaN == NaN): +, -, *T, *&T, +=, dot (left fold from index 0 starting at +0), squared == dot(v,v), dot symmetry, from_array/from_vec/from_slice/get_elements/Index/IndexMut/new/new_from_num/zero/len; f64 as MomTropFloat: inv == 1/x, from_isize exact up to 2^53 (checked through an i128 round trip) and correctly rounded beyond, PI/zero/one/abs/sqrt/ln/exp/sin/cos/powf/to_f64/from_f64 against std. non-trivial = D not in {2,3} or a component that is non-integer or of magnitude outside [1e-3,1e3]; distinct = distinct case encodings";
 
 #[derive(Clone, Debug, Serialize, Deserialize)]
 pub struct Case {
@@ -59,7 +60,28 @@ pub fn gen_case(t: &mut Tape, _tier: Tier) -> Option<Case> {
         3 => *t.pick(&[i64::MAX, i64::MIN, i64::MAX - 1, (1 << 62) + 1, (1 << 54) + 2, (1 << 54) + 6, 0]),
         _ => t.next() as i64,
     };
-    let y = gen_f(t).to_bits();
+    // argument of the f64 trait functions: besides the general classes, every magnitude on a log scale and the
+    // regions where the elementary functions change regime (results subnormal, under/overflowing, arguments next to
+    // 0, 1, multiples of pi/2, huge arguments of sin/cos)
+    let y = match t.weighted(&[0.55, 0.15, 0.15, 0.15]) {
+        0 => gen_f(t),
+        1 => {
+            let m = 10f64.powf(t.uniform(-323.0, 308.0));
+            if t.bool() { m } else { -m }
+        }
+        2 => {
+            // exp leaves the normal range between |x| = 690 and 760 (subnormal results from -708.4, zero from -745.13,
+            // infinity from 709.78)
+            let m = t.uniform(690.0, 760.0);
+            if t.bool() { m } else { -m }
+        }
+        _ => {
+            let c = *t.pick(&[0.0, 1.0, -1.0, std::f64::consts::FRAC_PI_2, std::f64::consts::PI, 2.0 * std::f64::consts::PI, 0.5, 2.0, 1e22, 709.782712893384, -708.3964185322641, -744.4400719213812, -745.1332191019412]);
+            let r = gen::ulp_step(f64::abs(c), t.range(0, 64) as i64 - 32);
+            if c < 0.0 { -r } else { r }
+        }
+    }
+    .to_bits();
     Some(Case { d, a, b, s, k, y })
 }
 
